@@ -31,7 +31,7 @@ META = {
         'quick': {'layout:single': 50, 'layout:ordered-split': 50, 'layout:repeated': 30, 'layout:nested': 30,
                   'layout:arbitrary-split': 30, 'corelang-roundtrips': 2, 'ttc:composite': 50, 'expr:collect': 100,
                   'expr:union': 20, 'expr:intersection': 20, 'expr:difference': 20, 'expr:subType': 20,
-                  'expr:transitive': 20, 'expr:variable': 20, 'expr:reassociated': 20, 'via-from_mal_spec': 30},
+                  'expr:transitive': 20, 'expr:variable': 20, 'expr:reassociated': 20, 'via-from_mal_spec': 30, 'class:field-named-like-a-step': 30},
         'thorough': {'layout:single': 5000, 'layout:ordered-split': 5000, 'layout:repeated': 3000, 'layout:nested': 3000,
                      'layout:arbitrary-split': 3000, 'corelang-roundtrips': 2, 'ttc:composite': 5000,
                      'expr:collect': 10000, 'expr:union': 2000, 'expr:intersection': 2000, 'expr:difference': 2000,
@@ -90,6 +90,42 @@ def hostile_spec(rng, spec, res):
     if n:
         res.count('expr:reassociated', n)
     return spec
+
+
+def clash_names(rng, spec):
+    """rename one association field to the name of an attack step of the asset type that navigates it.  malc
+    rejects such a language, but the compiler under test classifies names by POSITION only (last component of a
+    reaches expression = attack step, everything else = field), so the round trip must still be exact; it is the
+    one input class where a memo keyed by expression text gives itself away.  Returns True when applied."""
+    from ..ref_sem import Lang
+    lang = Lang(spec, snapshot=False)
+    cands = []
+    for a in spec['associations']:
+        for fld, holder in ((a['leftField'], a['rightAsset']), (a['rightField'], a['leftAsset'])):
+            names = [n for n in lang.step_names(holder)]
+            if names:
+                cands.append((fld, rng.choice(names)))
+    if not cands:
+        return False
+    old, new = rng.choice(cands)
+    if any(new in (a['leftField'], a['rightField']) for a in spec['associations']):
+        return False
+
+    def ren(e):
+        if isinstance(e, dict):
+            if e.get('type') == 'field' and e.get('name') == old:
+                e['name'] = new
+            for v in e.values():
+                ren(v)
+        elif isinstance(e, list):
+            for v in e:
+                ren(v)
+    for a in spec['associations']:
+        for k in ('leftField', 'rightField'):
+            if a[k] == old:
+                a[k] = new
+    ren(spec['assets'])
+    return True
 
 
 def norm_unordered(spec):
@@ -198,6 +234,8 @@ def run(rng, res, tier, shard, nshards):
         spec = hostile_spec(rng, gen_language(rng, cfg), res)
         kind = rng.choice(KINDS)
         case = {'spec': spec, 'kind': kind, 'layout_seed': rng.randrange(10 ** 9), 'via_graph': rng.random() < 0.15}
+        if not case['via_graph'] and rng.random() < 0.15 and clash_names(rng, spec):
+            res.count('class:field-named-like-a-step')
         nt = count_kinds(spec, res)
         first = check_case(case, res)
         res.case(digest([spec, kind]) if nt else None)
